@@ -353,14 +353,9 @@ def rand_file(rng, version, size="small"):
         mi = mi % 60
         nsat = (rng.choice([1, 2, 3, 5, 8, 11, 12, 13, 20, 24, 25, 36, 37, 40]) if big else rng.choice([1, 1, 2, 3, 4, 6, 12, 13]))
         sats = []
-        used = set()
-        while len(sats) < nsat:
-            s = rng.choice(systems)
-            prn = rng.randrange(1, 38)
-            if (s, prn) in used:
-                continue
-            used.add((s, prn))
-            blank = gps_blank and len(sats) < 12 and nsat <= 12
+        pool_ids = [(s_, p_) for s_ in systems for p_ in range(1, 38)]
+        for (s, prn) in rng.sample(pool_ids, min(nsat, len(pool_ids))):
+            blank = gps_blank and nsat <= 12
             if version == 2:
                 cells = [rand_cell(rng, p_absent) for _ in systypes[0][1]]
             else:
